@@ -113,6 +113,13 @@ NoLostIncrement == (AllDone /\ NoStores) => val = SumOver(Incs)
 ReadsExplained == ~bad
 \* C01: without reset the value never decreases (counter configurations use non-negative amounts)
 Monotone == [][(NoStores /\ CounterConfig) => val' >= val]_vars
+\* AtomImpl refines the recursion-free proof kernel AtomCore, for which Atomicity is PROVED (TLAPS) for any number of
+\* threads, any scripts and any number of spurious compare-exchange failures
+Core == INSTANCE AtomCore WITH rd <- [t \in Threads |-> loc[t].rd], done <- completed,
+                               NumCalls <- LAMBDA t : Len(Script[t]),
+                               Amount <- LAMBDA t, i : Delta(Script[t][i]),
+                               StoreValue <- LAMBDA t, i : StoreVal(Script[t][i])
+RefinesCore == Core!Spec
 \* lock-freedom of the CAS loop / termination of every call under weak fairness
 Termination == <>AllDone
 =============================================================================
